@@ -11,6 +11,7 @@ import DesyncModel.FactFifo
 import DesyncModel.FactSyncFuture
 import DesyncModel.Inv.Holder
 import DesyncModel.Inv.HolderReach
+import DesyncModel.Inv.JobReach
 
 namespace Desync.C01
 open Desync Gen
@@ -66,6 +67,30 @@ theorem run_right_is_exclusive {s : State} (hr : Reachable s) (a b q : Nat)
 region, and a queue that has an owner is in one of the states `running`, `awokenWhileRunning`,
 `waitingForUnpark` — the states from which no table grants the run right (`held_state_never_claimed`). -/
 theorem holder_invariant {s : State} (hr : Reachable s) : HolderInv s := holderInv_reachable hr
+
+/-- **Jobs are run only under the run right**: in every reachable state a job that has been dequeued (or created by
+sync_immediate) and not yet requeued, finished or destroyed is in the hands of exactly one activity, that activity's
+program counter says so, and it owns the run right of the job's queue.  (Inv/JobStep, Inv/JobReach: `JobInv` is
+inductive over all 101 program counters.) -/
+theorem running_job_has_owner {s : State} (hr : Reachable s) {j a : Nat} {b : Job} (hb : s.jobs[j]? = some b) (hph : b.ph = .held a) :
+    (s.pcAt a).holds b.q = true ∧ s.holder[b.q]? = some (some a) :=
+  held_job_owner_holds hr hb hph
+
+/-- **Two operations on one object are never being run at the same time**: of all the jobs of one queue at most one is
+in the hands of a runner, whichever threads are involved.  Together with `open_jobs_exclusive` below (suspended
+operations) this is `C01_full`. -/
+theorem running_operations_never_overlap {s : State} (hr : Reachable s) {j1 j2 a1 a2 : Nat} {b1 b2 : Job}
+    (h1 : s.jobs[j1]? = some b1) (h2 : s.jobs[j2]? = some b2) (hq : b1.q = b2.q)
+    (hp1 : b1.ph = .held a1) (hp2 : b2.ph = .held a2) : j1 = j2 :=
+  running_jobs_exclusive hr h1 h2 hq hp1 hp2
+
+/-- the jobs in a queue's list are exactly its queued jobs, each once -/
+theorem queue_lists_are_exact {s : State} (hr : Reachable s) {q : Nat} {v : JobQ} (hv : s.qs[q]? = some v) :
+    v.jobs.Nodup ∧ ∀ j ∈ v.jobs, ∃ b, s.jobs[j]? = some b ∧ b.ph = .queued ∧ b.q = q := by
+  obtain ⟨_, h⟩ := jobInv_reachable hr
+  refine ⟨h.nodup q v.jobs (qjobs_of hv), ?_⟩
+  intro j hj
+  exact jobPQ_some (h.queued q v.jobs j (qjobs_of hv) hj)
 
 /-- non-vacuity: a concrete reachable state in which an activity owns a queue -/
 example : ∃ s, Reachable s ∧ ∃ a q, (s.pcAt a).holds q = true := by
